@@ -30,3 +30,28 @@ package ipk
 //@ inline func stripDisallowedFields(info *nfpm.Info)
 //@   loop 0
 //@     invariant [C06] no-failure-so-far: !flag("failed")
+//
+//@ import "strings"
+//
+//@ spec func opt(sep, s string) string {
+//@     if s == "" { return "" }
+//@     return sep + s
+//@ }
+//
+//@ spec func ipkVersion(version, prerelease, metadata, release string) string {
+//@     return version + opt("~", prerelease) + opt("+", metadata) + opt("-", release)
+//@ }
+//
+//@ func ensureValidArch(info *nfpm.Info) (result *nfpm.Info)
+//@   requires info != nil
+//@   ensures [C02 C15] override-verbatim: implies(old(info.IPK.Arch) != "", info.Arch == old(info.IPK.Arch))
+//@   ensures [C02] unknown-verbatim: implies(old(info.IPK.Arch) == "" && !mapHas(archToIPK, old(info.Arch)), info.Arch == old(info.Arch))
+//@   ensures [C11 C15] idempotent: implies(old(info.IPK.Arch) == "", !mapHas(archToIPK, info.Arch) || archToIPK[info.Arch] == info.Arch)
+//@   ensures [C11] same-object: result == info
+//@   modifies [C11 C12] &info.Arch
+//
+//@ func (d *IPK) ConventionalFileName(info *nfpm.Info) (result string)
+//@   requires info != nil
+//@   ensures [C15 C14 C02] name: result == old(info.Name) + "_" + ipkVersion(old(info.Version), old(info.Prerelease), old(info.VersionMetadata), old(info.Release)) + "_" + info.Arch + ".ipk"
+//@   ensures [C15] extension: strings.HasSuffix(result, d.ConventionalExtension())
+//@   modifies [C11 C12] &info.Arch
